@@ -354,6 +354,17 @@ def ast_mutants(prog):
                 m["body"] = nb
                 if possibly_unbound(m):
                     yield "undefined-variable-on-a-path", f"delete-{'.'.join(map(str, path))}.{idx}", m, None, True
+                    # the same mutant in a module that has a GLOBAL of that name (a number / an array): the name is
+                    # local to the function (it is assigned there), so Python raises UnboundLocalError on the path
+                    # that skips the assignment and the program is just as much outside the subset (seeded C02g made
+                    # the missing branch fall back on the global)
+                    if s[1] not in c01lib._assigned(nb):
+                        continue   # no assignment left: the name is then a plain global READ, which is supported
+                    for gi, gval in enumerate(("3.0", "np.array([1.0, 2.0], dtype=np.float32)")):
+                        m2 = dict(m)
+                        m2["_module_globals"] = f"{s[1]} = {gval}"
+                        yield ("undefined-variable-on-a-path+same-named-global",
+                               f"delete-{'.'.join(map(str, path))}.{idx}-g{gi}", m2, None, True)
     # M2: return inside a branch / loop body
     for path, block in c01lib._blocks(body):
         if not path:
@@ -448,6 +459,10 @@ def check_mutants(item):
     for kind, site, m, mark, required in ast_mutants(prog):
         src, marks = sg.render(m, with_marks=True)
         rel = rel_line(marks, marks[mark], m) if mark else None
+        if m.get("_module_globals"):
+            # module-level assignment placed right before the first decorated function (marks are not used by this kind)
+            i = src.index("@script")
+            src = src[:i] + "import numpy as np\n" + m["_module_globals"] + "\n" + src[i:]
         exc = None
         try:
             mod, fname, modname = sgrun.load_source(src, "m")
